@@ -156,24 +156,31 @@ def handle_quic_packet(packet: Packet, keylog, quic_sessions: list[QuicSession],
             case _:
                 quic_version = QuicVersion.UNKNOWN
 
-    for session in quic_sessions:
-        # first try matching connection IDs
-        if header_type == QuicHeaderType.LONG:
-            # a zero-length connection id cannot identify a session
-            if len(dcid) > 0 and (dcid in session.client_cids or dcid in session.server_cids):
+    # Sessions between the packet's own addresses are tried first. Connection ids alone only decide for packets from
+    # addresses no session uses (connection migration): a short (e.g. one byte) id of an unrelated session would
+    # otherwise match the first bytes of many foreign packets.
+    for same_addresses in (True, False):
+        for session in quic_sessions:
+            if session.matches_session_dgram(packet.ip_src, packet.ip_dst, packet.sport, packet.dport) != same_addresses:
+                continue
+
+            # first try matching connection IDs
+            if header_type == QuicHeaderType.LONG:
+                # a zero-length connection id cannot identify a session
+                if len(dcid) > 0 and (dcid in session.client_cids or dcid in session.server_cids):
+                    session.handle_packet(packet, dcid, quic_version)
+                    return
+            else:
+                # match by checking all known cid lengths for session
+                cid = session.match_short_header_cid(packet)
+                if cid is not None:
+                    session.handle_packet(packet, cid, quic_version)
+                    return
+
+            # matching ip address and port for zero length cids
+            if same_addresses:
                 session.handle_packet(packet, dcid, quic_version)
                 return
-        else:
-            # match by checking all known cid lengths for session
-            cid = session.match_short_header_cid(packet)
-            if cid is not None:
-                session.handle_packet(packet, cid, quic_version)
-                return
-
-        # check matching ip address and port for zero length cids
-        if session.matches_session_dgram(packet.ip_src, packet.ip_dst, packet.sport, packet.dport):
-            session.handle_packet(packet, dcid, quic_version)
-            return
 
     if header_type != QuicHeaderType.SHORT:
         new_session = QuicSession(packet, server_ports, keylog, portmap, keep_original_ports)
